@@ -259,7 +259,7 @@ class Interp(object):
         self.approx_resolved = 0
 
     # ===================================================================== entry
-    def run(self, fi, self_cls=None, bind=None, deref=None):
+    def run(self, fi, self_cls=None, bind=None, deref=None, heap=None):
         """All paths of fi.  self_cls: concrete class of `self`/`cls` (default: owner).
         bind: dict param -> term override."""
         self.npaths = 0
@@ -287,6 +287,8 @@ class Interp(object):
         for (k, pn), t in self.types.param_types.items():
             if k == fi.key and len(t) == 1 and ("param", pn) not in p.types:
                 p.types[("param", pn)] = next(iter(t))
+        if heap:
+            p.heap.update(heap)
         self.top = fi
         out = self.exec_block(fi.body, p)
         res = []
@@ -667,17 +669,17 @@ class Interp(object):
             if isinstance(it, tuple) and it[0] == "listof" and len(it[2]) <= 3:
                 # list(<unknown>) + known appended items: at most one symbolic iteration over the unknown
                 # part, then the known items in order
-                ps = [p]
+                known = self.known_emptiness(it[1], p)
                 z = p.fork()
-                ps.append(z)
                 elem = ("elem", it[1], self.site(st))
                 first = []
-                for r in self.assign(st.target, elem, p, st):
-                    for s_ in self.exec_block(st.body, r):
-                        if s_.status == "continue":
-                            s_.status = "ok"
-                        first.append(s_)
-                ps = first + [z]
+                if known is not False:
+                    for r in self.assign(st.target, elem, p, st):
+                        for s_ in self.exec_block(st.body, r):
+                            if s_.status == "continue":
+                                s_.status = "ok"
+                            first.append(s_)
+                ps = first + ([z] if known is not True else [])
                 for item in it[2]:
                     nps = []
                     for q_ in ps:
@@ -702,7 +704,13 @@ class Interp(object):
                         out.append(q_)
                 continue
             # zero iterations
-            nonempty = items is not None and len(items) > 0
+            known = self.known_emptiness(it, p)
+            nonempty = (items is not None and len(items) > 0) or known is True
+            if known is False:
+                z = p
+                self.emit(z, "loop", st, ("exit", "empty"))
+                out.extend(self.exec_block(st.orelse, z))
+                continue
             if not nonempty:
                 z = p.fork()
                 self.emit(z, "loop", st, ("exit", "empty"))
@@ -725,6 +733,27 @@ class Interp(object):
                     else:
                         out.append(s)
         return out
+
+    def known_emptiness(self, it, path):
+        """True: the iterable is known non-empty on this path; False: known empty; None: unknown.
+        Uses the memoised truth value of the container (an earlier `if xs:` / `not xs`)."""
+        t = it
+        for _ in range(3):
+            if not isinstance(t, tuple):
+                return None
+            if t in path.assume:
+                return path.assume[t]
+            if t[0] == "call" and isinstance(t[1], tuple) and t[1][0] == "attr" and t[1][2] in ("keys", "values", "items", "copy") and not t[2]:
+                t = t[1][1]
+                continue
+            if t[0] == "call" and t[1] in (("name", "list"), ("name", "tuple"), ("name", "iter"), ("name", "enumerate")) and len(t[2]) == 1:
+                t = t[2][0]
+                continue
+            if t[0] == "listof" and not t[2]:
+                t = t[1]
+                continue
+            return None
+        return None
 
     def known_items(self, it, path):
         if isinstance(it, tuple):
